@@ -360,7 +360,8 @@ def job_c18(clsname, seed, count, two_sessions=False, replay_lines=None):
         A, T = ctrlrun.new_pool(cls), ctrlrun.new_pool(cls)
         sess = [ctrlrun.Sess(A)]
         if two_sessions:
-            sess.append(ctrlrun.Sess(A, width=60))
+            # same pool class; the same terminal width in half of the scenarios
+            sess.append(ctrlrun.Sess(A, width=60 if seed % 2 else 10000))
         oracle = [ctrlrun.Sess(T, width=x.width) for x in sess]     # twin sessions: parser oracle
         for x in sess + oracle:
             await x.start()
@@ -467,6 +468,76 @@ def job_c18(clsname, seed, count, two_sessions=False, replay_lines=None):
              "lines": lines, "kinds": dict(kinds), "samples": samples, "two": two_sessions}]
 
 
+def job_c18_wait(clsname, seed, count=0):
+    """C18, waiting commands and concurrency: session A sends a command whose method waits
+    (until-closed): no reply yet, and A's later lines queue behind it; meanwhile session B on the
+    same pool is answered line by line (help, errors, getters); when B's gather-and-close has
+    closed the pool, A's pending command is answered - exactly once, with its own result - and
+    then A's queued lines, in order."""
+    import ctrlrun
+    rng = random.Random(seed)
+    cls = _classes()[clsname]
+    fails, n_checks = [], 0
+    b_lines = [rng.choice(["num-running", "is-locked", "-h", "nope", "pool-size x", "num-ended", "is-full",
+                           "cancel 99", "flush", "lock", "unlock"]) for _ in range(rng.randint(2, 6))]
+
+    async def go():
+        nonlocal n_checks
+        A = ctrlrun.new_pool(cls)
+        sa, sb = ctrlrun.Sess(A), ctrlrun.Sess(A, width=70)
+        await sa.start()
+        await sb.start()
+        got = await sa.send("until-closed", rounds=20)
+        n_checks += 1
+        if got:
+            fails.append({"what": "until-closed was answered although the pool is not closed",
+                          "reply": b"".join(got).decode()[:120]})
+            return
+        queued = ["num-running", "is-locked"]
+        for q in queued:                      # they wait behind the pending command
+            got = await sa.send(q, rounds=10)
+            n_checks += 1
+            if got:
+                fails.append({"what": "a line sent behind a waiting command was answered before it",
+                              "line": q, "reply": b"".join(got).decode()[:120]})
+                return
+        for ln in b_lines:
+            got = await sb.send(ln, rounds=20)
+            n_checks += 1
+            if len(got) != 1 or not got[0].endswith(b"\n"):
+                fails.append({"what": "the other session is not answered once per line while a "
+                                      "command waits in the first", "line": ln,
+                              "chunks": [c.decode()[:80] for c in got]})
+                return
+            if sa.writer.chunks:
+                fails.append({"what": "the waiting session received output of the other session",
+                              "line": ln, "got": b"".join(sa.writer.take()).decode()[:120]})
+                return
+        got = await sb.send("gather-and-close", rounds=40)
+        n_checks += 1
+        if [c.decode() for c in got] != ["ok\n"]:
+            fails.append({"what": "gather-and-close not answered with ok", "chunks": [c.decode()[:80] for c in got]})
+            return
+        await ctrlrun.settle(30)
+        ra = [c.decode() for c in sa.writer.take()]
+        n_checks += 1
+        want = ["True\n", "0\n", "True\n"]
+        if ra != want:
+            fails.append({"what": "after the pool closed the waiting session must receive the reply of "
+                                  "until-closed and then those of its queued lines, once each, in order",
+                          "got": ra, "expected": want})
+        await sa.stop()
+        await sb.stop()
+
+    with ctrlrun.captured_std() as (so, se):
+        ctrlrun.run(go())
+    if so.getvalue() or se.getvalue():
+        fails.append({"what": "server printed on stdout/stderr", "stdout": so.getvalue()[:300],
+                      "stderr": se.getvalue()[:300]})
+    return [{"id": f"c18wait-{clsname}-{seed}", "class": clsname, "fails": fails, "checks": n_checks,
+             "lines": ["until-closed"] + b_lines, "kinds": {"waiting-scenario": 1}, "samples": [], "two": True}]
+
+
 # ---------------------------------------------------------------------------------- driver
 def jobs(pid, tier, seed):
     js = []
@@ -486,6 +557,9 @@ def jobs(pid, tier, seed):
             c = ["TaskPool", "SimpleTaskPool", "SubA", "SubB"][k % 4]
             js.append(("prop_ctrl", "job_c18", {"clsname": c, "seed": base + k, "count": cnt,
                                                 "two_sessions": k % 3 == 0}))
+        for k in range(4 if tier == "quick" else 24):
+            js.append(("prop_ctrl", "job_c18_wait", {"clsname": ["TaskPool", "SimpleTaskPool", "SubA", "SubB"][k % 4],
+                                                     "seed": base + 500 + k}))
     return js
 
 
@@ -520,7 +594,10 @@ def main(pid, tier, seed, replay):
         f = r["fails"][0]
         kw = {"clsname": r.get("class")}
         job = {"C16": "job_c16", "C17": "job_c17", "C18": "job_c18"}[pid]
-        if pid == "C16":
+        if r["id"].startswith("c18wait-"):
+            job = "job_c18_wait"
+            kw["seed"] = int(r["id"].rsplit("-", 1)[1])
+        elif pid == "C16":
             kw["width"] = r["width"]
         elif pid == "C17":
             kw.update({"seed": 0, "count": 0, "replay_calls": r["calls"][: f.get("index", len(r["calls"])) + 1]})
